@@ -1,5 +1,6 @@
 mod common;
 mod p_edit;
+mod p_pipe;
 
 use common::*;
 use serde_json::Value;
@@ -16,6 +17,7 @@ type GenFn = fn(u64, usize) -> Vec<Value>;
 fn component(name: &str) -> (ExecFn, GenFn) {
     match name {
         "edit" => (p_edit::exec, p_edit::gen),
+        "pipe" => (p_pipe::exec, p_pipe::gen),
         _ => {
             eprintln!("unknown component {name}");
             std::process::exit(2)
@@ -47,6 +49,15 @@ fn main() {
             let cases = gen(seed, n);
             write_ndjson(&args[5], &cases);
             println!("gen {} -> {} cases", args[2], cases.len());
+        }
+        "child-panic" if args.len() >= 5 => {
+            // the library's own panic hook must stay in place here
+            let _ = std::panic::take_hook();
+            p_pipe::child_panic(
+                args[2].parse().expect("W"),
+                args[3].parse().expect("N"),
+                args[4].parse().expect("fail"),
+            );
         }
         _ => usage(),
     }
